@@ -43,6 +43,8 @@ let cube_tt (n : int) (cube : int array) : vt =
       if !ok then 1 else 0)
 
 let last_pick : (string * string, int array option) Hashtbl.t = Hashtbl.create 16
+(* to be called at the start of a case: cubes remembered for PICKDD must not leak between cases *)
+let reset () = Hashtbl.reset last_pick
 
 let check ~(kname : string) ~(n : int) ~(ps : psnap) ~(get : string -> vt option) ~(getd : string -> vt option)
     ~(fail : int -> string -> string -> string -> unit) ~(check : string -> unit)
